@@ -9,7 +9,7 @@ HERE = os.path.dirname(os.path.abspath(__file__))
 sys.path.insert(0, HERE)
 
 
-def verify_with_rewrite(key, old, new, repo='/repo', timeout_ms=10000):
+def verify_with_rewrite(key, old, new, repo='/repo', timeout_ms=10000, count=1):
     from pyvc import runner
     from pyvc.verify import verify_function
     rel = key.split(':')[0]
@@ -20,7 +20,7 @@ def verify_with_rewrite(key, old, new, repo='/repo', timeout_ms=10000):
         text = open(os.path.join(repo, rel)).read()
         if old not in text:
             return dict(error=f'rewrite source text not found: {old!r}')
-        open(dst, 'w').write(text.replace(old, new, 1))
+        open(dst, 'w').write(text.replace(old, new, count))
         db = runner.load_db(tmp)
         r = verify_function(db, key, timeout_ms=timeout_ms)
         failed = [x.name for x in r['results'] if x.status == 'failed']
